@@ -143,7 +143,7 @@ pub async fn scenario_c07() {
 		for (id, m) in &msgs {
 			let over = m.len() > l;
 			let ws_out = outcome_by_id(&frames, *id);
-			let framing = rt::draw("http_framing", 3);
+			let framing = rt::draw("http_framing", 4);
 			let rep = match framing {
 				0 => world::collect_response(world.tower_call(world::post_request(m.clone())).await).await,
 				1 => {
@@ -151,6 +151,20 @@ pub async fn scenario_c07() {
 					let cut = rt::draw("cut", m.len() as u32 + 1) as usize;
 					let body = ScriptBody::new(vec![(m[..cut].to_vec(), 1), (m[cut..].to_vec(), 0)], None);
 					let req = http::Request::builder().method("POST").uri("/").header("host", "sim.invalid").header("content-type", "application/json").body(body).unwrap();
+					world::collect_response(world.tower_call(req).await).await
+				}
+				3 => {
+					// a Content-Length header that understates the body (possible when the tower service is driven
+					// directly or sits behind middleware that rewrites bodies): the bytes that arrive are what counts
+					rt::probe("lying_content_length");
+					let claimed = match rt::draw("claimed_len", 3) {
+						0 => 1,
+						1 => l.min(m.len()).saturating_sub(1),
+						_ => l.min(m.len()),
+					};
+					let cut = rt::draw("cut", m.len() as u32 + 1) as usize;
+					let body = ScriptBody::new(vec![(m[..cut].to_vec(), 1), (m[cut..].to_vec(), 0)], None);
+					let req = http::Request::builder().method("POST").uri("/").header("host", "sim.invalid").header("content-type", "application/json").header("content-length", claimed.to_string()).body(body).unwrap();
 					world::collect_response(world.tower_call(req).await).await
 				}
 				_ => {
@@ -182,7 +196,9 @@ pub async fn scenario_c07() {
 					rt::violate(P, "oversize-processed", format!("ws:{entry:?}"), format!("a {}-byte WebSocket message (limit {req_limit}, response limit {resp}) was processed: {ws_out:?}", m.len()));
 				}
 			} else {
-				if http_out != want && http_out != Outcome::HttpError(599) {
+				// (a body that is longer than its header claims may also be refused outright)
+				let lying_refused = framing == 3 && matches!(http_out, Outcome::HttpError(_));
+				if http_out != want && http_out != Outcome::HttpError(599) && !lying_refused {
 					rt::violate(P, "within-limit-not-processed", format!("http:{entry:?}"), format!("a {}-byte POST (limit {req_limit}, response limit {resp}, framing {framing}) was answered {http_out:?}, expected {want:?}", m.len()));
 				}
 				if alive && ws_out != want {
